@@ -80,6 +80,8 @@ def find_fn(src, qual):
             continue
         if src.is_cfg_test(it):
             continue
+        if any(('cfg(' in a and 'wasm_browser' in a and 'not(' not in a) for a in (it.attrs or [])):
+            continue   # rule D2: the verified configuration is native; `#[cfg(wasm_browser)]` twins are dropped
         # module path
         p = it.parent
         impl = None
